@@ -229,6 +229,12 @@ pub fn check_result(which: Which, r: &FcResult, entrypoints: &[String], unused: 
                   case(json!({"module": u, "emitted": text})),
                 );
               }
+            } else if k.ends_with("/may-be-omitted") {
+              run.violate(
+                "parameter-optionality-by-position-differs",
+                format!("{u}: `{k}`: {ov} in the original, {v} in the emitted module (a default before a required parameter becomes `T | undefined`, otherwise the parameter stays omittable)"),
+                case(json!({"module": u, "emitted": text})),
+              );
             } else if norm(ov) != norm(v) {
               run.violate(
                 format!("annotation-not-carried-over:{}", k.rsplit('/').next().unwrap_or("").trim_end_matches(char::is_numeric)),
